@@ -294,7 +294,7 @@ class DetectorConvergenceCondition(StoppingCondition):
         readings: jax.Array = next(iter(arrays.detector_states[self.detector_name].values()))
 
         # Always continue if below minimum steps, always stop if at end_step
-        time_condition = curr_time_step < config.time_steps_total
+        time_condition = (curr_time_step < config.time_steps_total) & (curr_time_step < self.max_steps)
         min_steps_condition = curr_time_step >= min_steps
 
         # Wrapping this in a func so we don't compute it until min_steps_condition == True
